@@ -38,6 +38,9 @@ QUICK_PAIR_KINDS = [
     "enum:Color", "msg:Sub", "timestamp", "wrap:int32", "fixed32",
 ]
 FIELD_NUMBERS = [1, 15, 16, 2047, 2048, 536870911]
+NAMED_FIELDS = ["foo_bar", "address_line_1", "x_y_z", "ipv4_address", "a1b2", "field_1_name", "is_3d",
+                "k8s_pod", "sha256_hash", "a_b_c_d", "v2", "i_18_n", "utf8_text", "vlan_id_1",
+                "fooBar", "HTTPStatus", "userID", "from", "class", "list"]
 
 
 @dataclass(frozen=True)
@@ -164,6 +167,23 @@ class Universe:
                     m2 = Msg(f"T2S_{a.label}__{b.label}", tuple(fs2))
                     msgs.append(m2)
                     self._plans.append(("T2S", m2, (a, b)))
+        # named-field family: snake_case names whose camelCase key does not trivially invert
+        from betterproto.compile.naming import pythonize_field_name
+        for ni, nm in enumerate(NAMED_FIELDS):
+            # Python field named as the plugin names it; proto / reference side keeps the proto name
+            m = Msg(f"TN{ni}", (Field(pythonize_field_name(nm), 3, "int32", proto_name=nm), Field("other", 4, "string")))
+            msgs.append(m)
+            self._plans.append(("TN", m, nm))
+        # kitchen sink: one field of EVERY unit in one message (declaration order != number order)
+        ks_fields = []
+        for i, u in enumerate(units):
+            if u.card == "map" and u.kind.startswith("wrap:"):
+                continue  # known-broken corner, covered on its own
+            num = 3 * (len(units) - i) + 1
+            ks_fields += unit_fields(u, f"k{i}", num, f"kg{i}", num + 1)
+        ks = Msg("KS", tuple(ks_fields))
+        msgs.append(ks)
+        self._plans.append(("KS", ks, [u for u in units if not (u.card == "map" and u.kind.startswith("wrap:"))]))
         self.schema = Schema("vfu", (COLOR,), tuple(msgs))
         self.bp = build_bp(self.schema, "vf_universe_" + tier)
         self.ref = build_ref(self.schema)
@@ -180,6 +200,32 @@ class Universe:
             va = unit_values(self.schema, us[0], "f", "reduced")
             vb = unit_values(self.schema, us[1], "g", "reduced")
             return [{**x, **y} for x in va for y in vb]
+        if tag == "TN":
+            fn = m.fields[0].name
+            return [{}, {fn: 7}, {fn: -1, "other": "x"}, {"other": ""}]
+        if tag == "KS":
+            vals: List[Dict[str, Any]] = [{}]
+            singles = []
+            i = -1
+            for u in all_units():
+                i += 1
+                if u.card == "map" and u.kind.startswith("wrap:"):
+                    continue
+                uv = [v for v in unit_values(self.schema, u, f"k{i}", "reduced") if v]
+                if uv:
+                    singles.append(uv)
+                    vals.append(uv[min(1, len(uv) - 1)])
+            everything: Dict[str, Any] = {}
+            defaults: Dict[str, Any] = {}
+            for uv in singles:
+                everything.update(uv[-1])
+                defaults.update(uv[0])
+            vals += [everything, defaults]
+            half: Dict[str, Any] = {}
+            for uv in singles[::2]:
+                half.update(uv[min(1, len(uv) - 1)])
+            vals.append(half)
+            return vals
         # T2S: same group: none | f=v | g=v
         out: List[Dict[str, Any]] = [{}]
         out += [{"f": v} for v in av.alphabet(self.schema, us[0].kind, "reduced")]
